@@ -72,6 +72,20 @@ where
     Ok(())
 }
 
+fn write_idx_field<W>(writer: &mut W, idx: Option<usize>) -> io::Result<()>
+where
+    W: Write,
+{
+    const IDX: &str = "IDX";
+
+    if let Some(i) = idx {
+        write_delimiter(writer)?;
+        write_value_field(writer, IDX, i.to_string())?;
+    }
+
+    Ok(())
+}
+
 fn write_other_fields<W, S>(writer: &mut W, other_fields: &OtherFields<S>) -> io::Result<()>
 where
     W: Write,
